@@ -315,6 +315,10 @@ def _mk_tile_compressor(
 
     tile_shape = meta.chunks
     encoder = TIFF.COMPRESSORS[meta.compression]
+    if meta.compression == 1:
+        # COMPRESSION.NONE: tifffile registers the identity function for it, which hands the
+        # array back; an uncompressed tile is the raw bytes of the block
+        encoder = None
 
     predictor = None
     if meta.predictor != 1:
